@@ -279,7 +279,10 @@ theorem resolveA_lock : ∀ (y : Ys) (s s' : St),
     simp only [resolveA, ysR, hm, if_true]; exact .inl ⟨rfl, hl.logs rfl rfl⟩
   | .sub _, _, _, _, _, hp, _, _ => by simp [Ys.plainY] at hp
   | .pval _, _, _, _, _, hp, _, _ => by simp [Ys.plainY] at hp
-  | .gco _, _, _, _, _, hp, _, _ => by simp [Ys.plainY] at hp
+  | .gco y, s, s', hm, hm', hp, hx, hl => by
+    simp only [Ys.plainY] at hp
+    simp only [resolveA, ysR]
+    exact resolveA_lock y s s' hm hm' hp (by simpa [SafeY, Ys.excOnly, Ys.noRaiseB] using hx) hl
   | .ofut b _, _, _, _, _, _, _, hl => by cases b <;> (simp only [resolveA, ysR]; exact .inl ⟨rfl, hl⟩)
   | .task c p, s, s', hm, hm', hp, hx, hl => by
     simp only [Ys.plainY] at hp
